@@ -82,6 +82,9 @@ def install(cfg: Cfg, prefixes=("xarray.", "dask.", "tqdm.", "pandas.")):
     cfg.lib_overrides[("contains", "xr")] = _contains
     cfg.lib_overrides[("truth", "xr")] = _truth
     cfg.lib_overrides[("compare", "xr")] = _compare
+    cfg.lib_overrides[("binop", "xr")] = lambda ex, op, a, b: VOpaque("xr", ex.st.fresh_int("xr"), {"label": "binop"})
+    cfg.name_overrides["global_options"] = VOpaque("xr", None, {"label": "global_options", "truthy": True})
+    cfg.name_overrides["version"] = VStr("<pyxel version>")
     cfg.lib_overrides[("list_of", "xr")] = lambda ex, v, fr: VOpaque("xr", ex.st.fresh_int("xr"), {"label": f"list({v.info.get('label')})", "of": v})
     cfg.lib_overrides[("len", "xr")] = lambda ex, v, fr: VInt(ex.st.fresh_int("xr_len"))
     cfg.lib_overrides[("deepcopy", "xr")] = lambda ex, v, dc, fr: VOpaque("xr", ex.st.fresh_int("xr"), dict(v.info, copied_from=v))
